@@ -148,11 +148,11 @@ class HybridCache(_CacheBase):
             otherwise None.
 
         """
-        if key not in self._cache_dict:
-            return None
-        with self._cache_lock:
+        with self._cache_lock:  # membership test and read under one lock
+            if key not in self._cache_dict:
+                return None
             self._access_counts[key] += 1
-        value = self._cache_dict[key]
+            value = self._cache_dict[key]
         if self._allow_cloudpickle and self.shared:
             value = cloudpickle.loads(value)
         return value
@@ -294,9 +294,9 @@ class LRUCache(_CacheBase):
 
     def get(self, key: Hashable) -> Any:
         """Get a value from the cache by key."""
-        if key not in self._cache_dict:
-            return None
-        with self._cache_lock:
+        with self._cache_lock:  # membership test and read under one lock
+            if key not in self._cache_dict:
+                return None
             value = self._cache_dict[key]
             # Move key to back of queue
             self._cache_queue.remove(key)
